@@ -1,6 +1,7 @@
 (* AltRound.v — C11, part 3: entering and leaving the alternate screen (DECSET/DECRST 47 and
    1049), closed forms of the four operations and the round trips in all four combinations. *)
 Require Import Tac ListN Width Attrs Cell Row Grid Screen Vte Perform Parser RowInv GridInv ScreenInv SbFrame.
+Require Import Chunking.
 Require Import AltSpec AltSaved.
 Open Scope N_scope.
 
@@ -283,17 +284,17 @@ Proof. intros H. apply perform_all_ok. exact H. Qed.
 (* the same at the level of the parser API: a chunk of bytes processed on the alternate screen
    whose actions are switch-free leaves the primary grid alone *)
 Theorem process_alt_isolation p bs q : altmode (scr p) = true ->
-  Forall (fun a => switch_free (resizing p) a = true) (snd (advance (vt p) bs)) ->
+  Forall (fun a => switch_free (resizing p) a = true) (snd (advance (vt p) (delivered p bs))) ->
   process p bs = Ok q -> g (scr q) = g (scr p) /\ altmode (scr q) = true.
 Proof.
-  unfold process. destruct (advance (vt p) bs) as [v acts]. cbn [snd]. intros Ha F E.
+  rewrite process_unfold. destruct (advance (vt p) _) as [v acts]. cbn [snd]. intros Ha F E.
   bind_inv E. destruct v0 as [s evs]. inv E. cbn [scr]. eapply alt_isolation_all; eassumption.
 Qed.
 Theorem process_primary_isolation p bs q : altmode (scr p) = false ->
-  Forall (fun a => switch_free (resizing p) a = true) (snd (advance (vt p) bs)) ->
+  Forall (fun a => switch_free (resizing p) a = true) (snd (advance (vt p) (delivered p bs))) ->
   process p bs = Ok q -> alt (scr q) = alt (scr p) /\ altmode (scr q) = false.
 Proof.
-  unfold process. destruct (advance (vt p) bs) as [v acts]. cbn [snd]. intros Ha F E.
+  rewrite process_unfold. destruct (advance (vt p) _) as [v acts]. cbn [snd]. intros Ha F E.
   bind_inv E. destruct v0 as [s evs]. inv E. cbn [scr]. eapply primary_isolation_all; eassumption.
 Qed.
 
@@ -309,7 +310,7 @@ Lemma reachable_ok rows cols cap rz p0 ops p :
   Forall op_ok ops -> run p0 ops = Ok p -> screen_ok (scr p).
 Proof.
   intros Hr Hc E0 F E. destruct (parser_new_ok rows cols cap rz Hr Hc) as (p0' & E0' & O0).
-  rewrite E0 in E0'. inv E0'. destruct (run_ok ops _ O0 F) as (q & Eq & Oq). rewrite E in Eq. inv Eq. exact Oq.
+  rewrite E0 in E0'. inv E0'. destruct (run_ok ops _ O0 F) as (q & Eq & Oq). rewrite E in Eq. inv Eq. exact (parser_ok_scr _ Oq).
 Qed.
 
 (* the round trip from every reachable primary state, through Parser::process: it never panics,
@@ -318,13 +319,13 @@ Theorem round_trip_reachable rows cols cap rz p0 ops p e x i1 i2 acts bs :
   1 <= rows <= MAXDIM -> 1 <= cols <= MAXDIM -> parser_new rows cols cap rz = Ok p0 ->
   Forall op_ok ops -> run p0 ops = Ok p ->
   altmode (scr p) = false -> e = 47 \/ e = 1049 -> x = 47 \/ x = 1049 ->
-  snd (advance (vt p) bs) = ENTER e i1 :: acts ++ [LEAVE x i2] ->
+  snd (advance (vt p) (delivered p bs)) = ENTER e i1 :: acts ++ [LEAVE x i2] ->
   Forall (fun a => switch_free (resizing p) a = true) acts ->
   exists q, process p bs = Ok q /\ screen_ok (scr q) /\ altmode (scr q) = false /\
     g (scr q) = exit_g x (with_sb (entry_g e (g (scr p))) (sb (g (scr p))) 0).
 Proof.
   intros Hr Hc E0 Fo E Ha He Hx Eb F. pose proof (reachable_ok _ _ _ _ _ _ _ Hr Hc E0 Fo E) as O.
-  unfold process. destruct (advance (vt p) bs) as [v al]. cbn [snd] in Eb. subst al.
+  rewrite process_unfold. destruct (advance (vt p) _) as [v al]. cbn [snd] in Eb. subst al.
   destruct (round_trip_total (resizing p) (scr p) e x i1 i2 acts [] O) as (s3 & evs & E3 & O3).
   rewrite E3. cbn [bind]. eexists; split; [reflexivity|]. cbn [scr].
   destruct (round_trip _ _ _ _ _ _ _ _ _ _ Ha He Hx F E3) as (G & A). auto.
